@@ -50,11 +50,18 @@ ID_SCHEMA = {
         {"name": "fx", "type": {"type": "fixed", "name": "F4", "size": 4}},
         {"name": "u", "type": ["null", "string", "long"], "default": None},
         {"name": "fl", "type": "float"},
+        # the named types used again, by name (an appending writer must keep resolving these in the file's own schema)
+        {"name": "e2", "type": "h.Col"},
+        {"name": "fx2", "type": ["null", "F4"], "default": None},
         {"name": "last", "type": "long"},
     ],
 }
 ZERO_SCHEMAS = ["null", {"type": "record", "name": "Empty", "fields": []}, {"type": "fixed", "name": "Z", "size": 0}]
 OTHER_SCHEMAS = [None, "string", {"type": "record", "name": "Other", "fields": [{"name": "q", "type": "int"}]},
+                 # the file's type names defined differently
+                 {"type": "record", "name": "Ev2", "namespace": "h", "fields": [
+                     {"name": "c", "type": {"type": "enum", "name": "Col", "symbols": ["B", "G", "R", "X"]}},
+                     {"name": "f", "type": {"type": "fixed", "name": "F4", "size": 2}}]},
                  {"type": "record", "name": "Ev", "namespace": "h", "fields": [{"name": "id", "type": "string"}]}]
 
 
@@ -80,7 +87,8 @@ def good_record(rng, ids, family, size=None):
     i = ids.next()
     return {"id": i, "s": ("x" * 5000 if size == "large" else "s%d" % i),
             "arr": [i % 7, 1, 2][: rng.randint(0, 3)], "e": rng.choice(["R", "G", "B"]),
-            "fx": bytes([i % 256, 1, 2, 3]), "u": rng.choice([None, "u", i]), "fl": float(i % 100), "last": -i}
+            "fx": bytes([i % 256, 1, 2, 3]), "u": rng.choice([None, "u", i]), "fl": float(i % 100),
+            "e2": ["R", "G", "B"][i % 3], "fx2": rng.choice([None, bytes([9, 8, 7, i % 256])]), "last": -i}
 
 
 def bad_record(rng, ids, kind):
